@@ -364,6 +364,7 @@ func cmdShift(fs *flag.FlagSet) {
 	seed := fs.Int64("seed", 1, "seed")
 	stride := fs.Int("stride", 5, "position stride")
 	maxIns := fs.Int("maxins", 4, "insertion points per file (0 = all)")
+	localOnly := fs.String("localonly", "", "worlds (comma separated) in which only the edited file is queried (many small files)")
 	prefixStride := fs.Int("prefixes", 0, "also run on every n-th token prefix of every document (0 = documents only)")
 	fs.Parse(os.Args[2:])
 	hangFile = *out + ".hang"
@@ -479,6 +480,15 @@ func cmdShift(fs *flag.FlagSet) {
 					"lines": Lines(nsrc), "len": len(nsrc), "note": fmt.Sprintf("%s at:%d ins:%q", j.note, j.at, j.ins)})
 				nl := strings.Count(string(src), "\n") + 1
 				keys := queryKeysFocus(j.w, "p1", *stride, lrng, j.file, map[int]bool{1: true, j.at - 1: true, j.at: true, j.at + 1: true, nl - 1: true, nl: true})
+				if strings.Contains(","+*localOnly+",", ","+j.w.Name+",") {
+					loc := keys[:0:0]
+					for _, q := range keys {
+						if q.File == j.file || q.File == "" {
+							loc = append(loc, q)
+						}
+					}
+					keys = loc
+				}
 				type agg struct {
 					n, skelDiff, lenDiff int
 					pairs                map[[6]int]bool
